@@ -54,11 +54,14 @@ STMT_KINDS = {
     'gosub': K_GOSUB, 'ret': K_RET, 'retto': K_RETTO, 'onerr': K_ONERR, 'onerr0': K_ONERR0,
     'err': K_ERR, 'res': K_RES, 'resto': K_RESTO, 'end': K_END, 'start': K_START, 'run': K_RUN,
     'clear': K_CLEAR, 'new': K_NEW, 'renum': K_RENUM, 'chain': K_RUN, 'defkey': K_DEFKEY,
+    # STOP breaks into direct mode keeping everything else (also the active error handler): the
+    # model's Idle; CONT re-enters the program: the model's Start
+    'stopstmt': K_IDLE, 'cont': K_START,
 }
 ENV_KINDS = ('occ', 'occi', 'con', 'playq')
 EV_KINDS = ('on', 'off', 'stop', 'gs', 'gs0')
 PLAIN_KINDS = ('gosub', 'ret', 'retto', 'onerr', 'onerr0', 'err', 'res', 'resto', 'end', 'start', 'run',
-               'clear', 'new', 'renum', 'chain')
+               'clear', 'new', 'renum', 'chain', 'stopstmt', 'cont')
 DISPATCH = 30      # targets per ON .. GOTO line
 
 
@@ -72,7 +75,7 @@ def stmt_text(kind, e):
     return {'gosub': 'GOSUB %d' % SUB_LINE, 'ret': 'RETURN', 'retto': 'RETURN 100',
             'onerr': 'ON ERROR GOTO %d' % ERR_LINE, 'onerr0': 'ON ERROR GOTO 0', 'err': 'ERROR 5',
             'res': 'RESUME NEXT', 'resto': 'RESUME 100', 'end': 'END', 'start': 'GOTO 100',
-            'run': 'RUN 100', 'clear': 'CLEAR', 'new': 'NEW',
+            'run': 'RUN 100', 'clear': 'CLEAR', 'new': 'NEW', 'stopstmt': 'STOP', 'cont': 'CONT',
             # in the program: renumber the tail block (STRIG(6) handler) to where it is (RENUM rewrites
             # these two numbers itself when the block moves); all side effects, same program.
             # In direct mode the harness really moves the block, see Replayer.direct
@@ -326,7 +329,7 @@ class Replayer(object):
             top = self.last_stack[0][1] if self.last_stack else None
             self.log.append(('mark', MARKER_LINES[ln], top))
         if ln in LINE_ACTION:
-            self.pending_stmt = LINE_ACTION[ln]
+            self.pending_stmt = self.resolve(LINE_ACTION[ln])
         if ln == 100:
             # environment actions: they are seen by the interpreter at the statement boundary before
             # line 110 (a handler entered there comes back to line 100 and continues the schedule)
@@ -353,8 +356,15 @@ class Replayer(object):
                 self.session.set_variable('ABC'[j] + '%', r + 1 if j == d else 0)
         self.log.append(('endhook',))
 
+    def resolve(self, st):
+        """what the statement about to run amounts to: CONT with nothing to continue is an error"""
+        if st[0] == 'cont' and self.it.stop_pos is None:
+            return ('err', 0)
+        return st
+
     def direct(self, st):
         text = stmt_text(*st)
+        st = self.resolve(st)
         at_alt = TAIL_LINE not in self.impl.program.line_numbers
         if st == ('gs', 27) and at_alt:
             text = text.replace(str(TAIL_LINE), str(TAIL_ALT))
@@ -702,6 +712,17 @@ class C38(core.Check):
             S + [('on', 1), ('start', 0), ('ret', 0), ('res', 0), ('occ', 1), ('start', 0), ('err', 0), ('onerr0', 0)],
             # direct-mode GOSUB / error / RESUME restore direct mode
             S + [('on', 1), ('gosub', 0), ('occ', 1), ('ret', 0), ('ret', 0), ('err', 0), ('res', 0)],
+            # seed C38c: the error handler is interrupted by STOP and continued by CONT: it is still active
+            # (RESUME still valid), so the trap must wait for RESUME
+            S + [('on', 1), ('start', 0), ('err', 0), ('stopstmt', 0), ('cont', 0), ('occ', 1), ('res', 0),
+                 ('ret', 0)],
+            S + [('on', 1), ('start', 0), ('err', 0), ('occ', 1), ('stopstmt', 0), ('occ', 1), ('cont', 0),
+                 ('gosub', 0), ('ret', 0), ('resto', 0), ('ret', 0)],
+            # END in the error handler ends it (suspension stays: quirk), CONT / STOP outside handlers,
+            # CONT with nothing to continue
+            S + [('on', 1), ('cont', 0), ('start', 0), ('err', 0), ('end', 0), ('cont', 0), ('occ', 1), ('run', 0),
+                 ('stopstmt', 0), ('gs', 1), ('on', 1), ('cont', 0), ('occ', 1), ('stopstmt', 0), ('cont', 0),
+                 ('ret', 0)],
             # function, cursor and user-defined keys; the definition is forgotten by RUN
             [('gs', 5), ('gs', 11), ('gs', 15), ('gs', 16), ('on', 5), ('on', 11), ('on', 15), ('on', 16),
              ('start', 0), ('occ', 15), ('occ', 16), ('defkey', 15), ('occ', 15), ('occ', 16), ('ret', 0),
@@ -750,7 +771,7 @@ class C38(core.Check):
         weights = [('occ', 30), ('occi', 3), ('on', 10), ('off', 6), ('stop', 8), ('ret', 14), ('gosub', 3),
                    ('retto', 2), ('err', 5), ('res', 5), ('resto', 1), ('end', 2), ('start', 4), ('run', 1),
                    ('gs', 2), ('gs0', 1), ('onerr', 1), ('onerr0', 1), ('con', 2), ('clear', 1), ('new', 1),
-                   ('renum', 3), ('chain', 1)]
+                   ('renum', 3), ('chain', 1), ('stopstmt', 4), ('cont', 5)]
         if PLAY in events:
             weights.append(('playq', 12))
         if any(e in USER_KEYS for e in events):
@@ -768,6 +789,26 @@ class C38(core.Check):
                 acts.append([k, rng.choice(events)])
             else:
                 acts.append([k, 0])
+        return acts
+
+    def interrupted_handler_schedule(self, rng, events):
+        """histories in which a handler (error handler or trap routine) is interrupted - STOP, END, RENUM,
+        an untrapped error - and the program is re-entered - CONT, GOTO, RETURN, RESUME from direct mode -
+        with occurrences before, during and after; random filler between the steps"""
+        e = rng.choice(events)
+        acts = [['gs', x] for x in events] + [['onerr', 0]] + [['on', x] for x in events] + [['start', 0]]
+        filler = [['occ', e], ['occ', rng.choice(events)], ['stop', e], ['on', e], ['off', e], ['gosub', 0],
+                  ['ret', 0], ['occi', e]]
+        spine = [rng.choice([['err', 0], ['occ', e], ['err', 0]]),
+                 rng.choice([['stopstmt', 0], ['stopstmt', 0], ['end', 0], ['renum', 0], ['err', 0]]),
+                 rng.choice([['cont', 0], ['cont', 0], ['start', 0], ['ret', 0], ['res', 0]]),
+                 ['occ', e],
+                 rng.choice([['res', 0], ['resto', 0], ['ret', 0], ['stopstmt', 0]]),
+                 rng.choice([['cont', 0], ['ret', 0], ['occ', e]])]
+        for step in spine:
+            for _ in range(rng.choice([0, 0, 0, 1, 2])):
+                acts.append(list(rng.choice(filler)))
+            acts.append(list(step))
         return acts
 
     ALPHABET = [('occ', 1), ('occ', 2), ('on', 1), ('on', 2), ('off', 1), ('stop', 1), ('ret', 0), ('err', 0),
@@ -791,7 +832,10 @@ class C38(core.Check):
                 events = [rng.choice([1, 5, 11, 15, 16]), PLAY]
             else:
                 events = rng.sample(TRACKED, rng.randrange(1, 5))
-            acts = self.rand_schedule(rng, events, rng.choice([4, 8, 12, 16, 24]))
+            if i % 6 == 5:
+                acts = self.interrupted_handler_schedule(rng, [x for x in events if x != PLAY][:2] or [1])
+            else:
+                acts = self.rand_schedule(rng, events, rng.choice([4, 8, 12, 16, 24]))
             out.append({'acts': acts})
         if self.tier == 'thorough':
             nex = 0
